@@ -5,6 +5,8 @@ import (
 	"io"
 	"log"
 	"os"
+	"runtime/debug"
+	"runtime/pprof"
 
 	"verifharness/hx"
 )
@@ -31,6 +33,12 @@ func runSeq(c *hx.Ctx, seq *Seq) {
 }
 
 func realMain() {
+	debug.SetGCPercent(400) // many short-lived copies of an 8190-block image
+	if p := os.Getenv("C05_PROF"); p != "" {
+		f, _ := os.Create(p)
+		_ = pprof.StartCPUProfile(f)
+		defer pprof.StopCPUProfile()
+	}
 	log.SetOutput(io.Discard) // pebble's default logger
 	c := hx.NewCtx("C05")
 	or = hx.StartOracle(c.OraclePath)
@@ -66,6 +74,7 @@ func realMain() {
 		}
 	}
 	c.Extra["window"] = W
+	pprof.StopCPUProfile()
 	c.Finish("every crash image (after each committed write) decodes to the image the extracted model predicts, satisfies the extracted predicates consistent / recover_ready / index_covers, answers event queries like a receipt scan and stores the next block; after every injected commit failure the same process answers like the disk and stores the next block")
 }
 
